@@ -573,6 +573,10 @@ func runNilSubMessages(c *eng.Ctx) {
 					c.OK("sub-message "+fname+" in "+ir.FuncKey(fn), c.Pos(call), "nil-checked in the handler before use")
 					continue
 				}
+				if why := validatedByCaller(c, fn, fname); why != "" {
+					c.OK("sub-message "+fname+" in "+ir.FuncKey(fn), c.Pos(call), why)
+					continue
+				}
 				callee := call.Call.StaticCallee()
 				idx := -1
 				for i, a := range call.Call.Args {
@@ -744,4 +748,79 @@ func provedAtCallSites(c *eng.Ctx, t *eng.Taint, fn *ssa.Function, in ssa.Instru
 		return ""
 	}
 	return fmt.Sprintf("len >= %d is proven at each of the %d call sites that pass untrusted bytes", need, nt)
+}
+
+// validatedByCaller: every module call site of the per-op handler h is dominated by the success edge of a validator — a
+// module function applied to the same request value that compares the given sub-message field with nil and returns an
+// error. Returns a description, or "" when not established.
+func validatedByCaller(c *eng.Ctx, h *ssa.Function, field string) string {
+	obj, _ := h.Object().(*types.Func)
+	if obj == nil {
+		return ""
+	}
+	sites := eng.Index(c.P).Sites(eng.FuncRef(obj))
+	if len(sites) == 0 {
+		return ""
+	}
+	validator := ""
+	for _, s := range sites {
+		call, ok := s.Instr.(*ssa.Call)
+		if !ok || s.Mode != "call" {
+			return ""
+		}
+		req := call.Call.Args[len(call.Call.Args)-1]
+		found := false
+		eng.Instrs(s.Fn, func(in ssa.Instruction) {
+			vc, ok := in.(*ssa.Call)
+			if !ok || found {
+				return
+			}
+			v := vc.Call.StaticCallee()
+			if v == nil || !c.P.IsModuleFunc(v) || v == h || len(vc.Call.Args) == 0 || vc.Call.Args[len(vc.Call.Args)-1] != req {
+				return
+			}
+			if !comparesFieldWithNil(v, field) {
+				return
+			}
+			okEdge := eng.CmpEdges(s.Fn, eng.Same(vc), eng.NilConst, eng.EQ)
+			if g, _ := eng.GuardedBy(s.Fn, call, okEdge); g && len(okEdge) > 0 {
+				found = true
+				validator = ir.FuncKey(v)
+			}
+		})
+		if !found {
+			return ""
+		}
+	}
+	return "every call of this handler is behind the success edge of " + validator + ", which refuses a request whose " + field + " is nil"
+}
+
+// comparesFieldWithNil: v compares the given field of its last parameter with nil and has an error return.
+func comparesFieldWithNil(v *ssa.Function, field string) bool {
+	if len(v.Params) == 0 {
+		return false
+	}
+	prm := v.Params[len(v.Params)-1]
+	cmp := false
+	eng.Instrs(v, func(in ssa.Instruction) {
+		bo, ok := in.(*ssa.BinOp)
+		if !ok || (bo.Op != token.EQL && bo.Op != token.NEQ) || !eng.NilConst(bo.Y) {
+			return
+		}
+		f, b := eng.FieldRead(bo.X)
+		if f != nil && f.Name() == field && eng.Strip(b) == prm {
+			cmp = true
+		}
+	})
+	if !cmp {
+		return false
+	}
+	for _, r := range eng.Returns(v) {
+		for _, res := range r.Results {
+			if !eng.NilConst(res) && res.Type().String() == "error" {
+				return true
+			}
+		}
+	}
+	return false
 }
